@@ -141,6 +141,9 @@ func c13(c *Check) {
 	collectorsNeverStop(c, "C13/export-collectors-never-stop", expFns)
 	c.Rule("C13/no-kept-address-of-a-loop-variable", "in the genesis validators, exporters and importers (all module packages) no address of a variable that is re-assigned by each iteration of a loop is kept beyond the iteration: a table built that way describes the last entry only", 10)
 	noRetainedLoopVarAddress(c, "C13/no-kept-address-of-a-loop-variable", fnsInPackages(c, "/x/", "/adapter/", "/app"))
+	c.Rule("C13/stored-state-passes-the-module's-own-validation", "state writers keep what the genesis validators demand (shared with C18 and C12): a TSS client gets no consensus state (validation rejects height zero); an ERC-20 address update removes the old record and indexes before the id changes (validation rejects two pairs with the same denominations)", 4)
+	consStateSkippedOnlyForTSS(c, "C13/stored-state-passes-the-module's-own-validation")
+	updateDeletesBeforeAddressChange(c, "C13/stored-state-passes-the-module's-own-validation")
 	c.Rule("C13/rvesting-parameters-exported-as-stored", "the reward-vesting module exports exactly the parameters it reads from its store (no canonicalising constructor in between: sdk.NewCoins would drop zero amounts and re-sort)", 2)
 	c.Spec("C13/rvesting-parameters-exported-as-stored", Macros{}, FnSpec{Fn: "x/rvesting/keeper.Keeper.ExportGenesis",
 		Returns: []Ret{{Label: "genesis of the stored params", Index: 0, Want: []string{"rvesting/types.NewGenesisState(rvesting/keeper.(Keeper).GetParams($0, $1))"}}}})
